@@ -293,7 +293,9 @@ func (e *Enc) execStore(in *ssa.Store) {
 	e.guardCheck(in.Addr, true, in.Pos())
 	e.frameCheckLoc(l, in.Pos())
 	e.store(e.cur, l, v)
-	e.applyAts("store", e.storeTargetName(in), in.Pos(), nil, nil)
+	e.atArgTypes = []types.Type{in.Val.Type()}
+	e.applyAts("store", e.storeTargetName(in), in.Pos(), []Val{{T: v}}, nil)
+	e.atArgTypes = nil
 }
 
 func (e *Enc) storeTargetName(in *ssa.Store) string {
@@ -333,7 +335,14 @@ func (e *Enc) execUnOp(in *ssa.UnOp) {
 		t = e.define("ld_"+in.Name(), e.sortOf(in.Type()), t)
 		e.vals[in] = Val{T: t}
 		if _, fresh := e.allocFreshLoc(l); !fresh {
-			e.assume(e.typeFacts(t, in.Type(), e.cur))
+			st := e.cur
+			if l.Heap != "" {
+				if cur, ok := e.cur.h[l.Heap]; !ok || cur == smtName(l.Heap+"@0") {
+					// the heap map is untouched since entry: what it holds predates this activation
+					st = e.init
+				}
+			}
+			e.assume(e.typeFacts(t, in.Type(), st))
 		}
 	case token.NOT:
 		e.setVal(in, tNot(x.T))
